@@ -21,10 +21,12 @@ package c01
 
 import (
 	"fmt"
+	"math/big"
 	mrand "math/rand"
 	"time"
 
 	"gitlab.com/aquachain/aquachain/common/log"
+	"gitlab.com/aquachain/aquachain/core"
 	"gitlab.com/aquachain/aquachain/core/types"
 	"gitlab.com/aquachain/aquachain/params"
 	"verif/internal/fw"
@@ -64,32 +66,34 @@ func init() {
 		Run: run,
 		Gate: func(tier string) map[string]int {
 			g := map[string]int{
-				"insertchain_calls":                       2000,
-				"import_result_compared_across_histories": 2000,
-				"builder_vs_importer_compared":            500,
-				"state_digest_by_walk":                    1000,
-				"state_digest_by_rawdump":                 1000,
-				"state_digest_compared_across_histories":  500,
-				"accepted_block_commitments_recomputed":   2000,
-				"reorg_observed":                          50,
-				"restart_between_imports":                 50,
-				"tree_with_uncle":                         8,
-				"tree_crossing_hf4_hf5":                   8,
-				"tree_with_creation":                      8,
-				"tree_with_failed_tx":                     8,
-				"long_tree_gc_ran":                        8,
-				"pruned_ancestor_path":                    1,
-				"known_block_resent":                      20,
-				"corrupt_rejected":                        300,
-				"corrupt_mode:tip":                        40,
-				"corrupt_mode:midbatch":                   40,
-				"corrupt_mode:sidefork":                   40,
-				"corrupt_mode:after_known":                20,
-				"corrupt_mode:deferred_sidefork":          20,
-				"deferred_sidefork_claims_held_root":      10,
-				"untouched_compared":                      300,
-				"control_valid_sibling_accepted":          20,
-				"mined_blocks_reimported":                 6,
+				"insertchain_calls":                          2000,
+				"import_result_compared_across_histories":    2000,
+				"builder_vs_importer_compared":               500,
+				"state_digest_by_walk":                       1000,
+				"state_digest_by_rawdump":                    1000,
+				"state_digest_compared_across_histories":     500,
+				"accepted_block_commitments_recomputed":      2000,
+				"reorg_observed":                             50,
+				"restart_between_imports":                    50,
+				"tree_with_uncle":                            8,
+				"tree_crossing_hf4_hf5":                      8,
+				"tree_with_creation":                         8,
+				"tree_with_failed_tx":                        8,
+				"long_tree_gc_ran":                           8,
+				"pruned_ancestor_path":                       1,
+				"known_block_resent":                         20,
+				"corrupt_rejected":                           300,
+				"corrupt_mode:tip":                           40,
+				"corrupt_mode:midbatch":                      40,
+				"corrupt_mode:sidefork":                      40,
+				"corrupt_mode:after_known":                   20,
+				"corrupt_mode:deferred_sidefork":             20,
+				"deferred_sidefork_claims_held_root":         10,
+				"untouched_compared":                         300,
+				"control_valid_sibling_accepted":             20,
+				"codesize_probe_of_branch_dependent_address": 16,
+				"storageless_contract_called_after_restart":  16,
+				"mined_blocks_reimported":                    6,
 				// uncle-window boundary of the block builder, by construction: a
 				// remembered side block whose parent is the 2nd / 7th (valid) and the
 				// 8th / 9th (outside) ancestor of the block the miner seals
@@ -154,6 +158,7 @@ func newWorld(c *fw.Ctx, cfgName string, labels ...string) (*gen.World, *fw.Rand
 	for attempt := 0; ; attempt++ {
 		r := c.Rand(append(append([]string{}, labels...), fmt.Sprint(attempt))...)
 		w := gen.NewWorld(r, configByName(cfgName), 6)
+		w.Spec.Alloc[addrProbe] = core.GenesisAccount{Code: probeCode(), Balance: big.NewInt(0)}
 		ok := true
 		for _, a := range w.Blobs {
 			for _, b := range w.Spec.Alloc[a].Code {
@@ -234,6 +239,7 @@ func runReplica(c *fw.Ctx, race bool) {
 			nLong = 1
 		}
 	}
+	runForced(c, race)
 	for i := 0; i < nShort+nLong; i++ {
 		long := i >= nShort
 		id := fmt.Sprintf("tree-%d", i)
@@ -247,7 +253,10 @@ func runReplica(c *fw.Ctx, race bool) {
 		if long {
 			spec = gen.TreeSpec{MainLen: r.Range(135, 170), Forks: 4, MaxForkLen: 10, MaxTx: 3, Uncles: true, ShorterHeavier: true, ReuseTx: true}
 		}
-		t := gen.GrowTree(r, w, spec)
+		var t *gen.Tree
+		if !build(c, id+"-build", map[string]interface{}{"config": cfgName, "spec": spec}, func() { t = gen.GrowTree(r, w, spec) }) {
+			continue
+		}
 		ti := indexTree(t)
 		reps := replicaSpecs(r.Fork("hist"), t, ti, long)
 		if race {
